@@ -109,7 +109,8 @@ class Inliner:
                 chain = origin_of_block.get(b, set()) | stack
                 done = (self._inline_helper(j, b, c, chain, origin_of_block) or self._inline_combinator(j, tmp, b, c, chain, origin_of_block)
                         or self._resolve_indirect(j, tmp, b, c, chain, origin_of_block)
-                        or self._resolve_fn_trait(j, tmp, b, c, chain, origin_of_block))
+                        or self._resolve_fn_trait(j, tmp, b, c, chain, origin_of_block)
+                        or self._desugar_pipeline(j, tmp, b, c, chain, origin_of_block))
                 if done:
                     progress = True
         if j['inlined']:
@@ -349,6 +350,208 @@ class Inliner:
         for r in rets:
             j['blocks'][r]['term'] = {'k': 'goto', 'target': retb}
         blk['term'] = {'k': 'goto', 'target': offB}
+        return True
+
+    # ---- iterator pipelines -> explicit loops
+    def _new_local(self, j, ty=''):
+        j['locals'].append({'ty': ty, 'mut': True})
+        return len(j['locals']) - 1
+
+    def _new_block(self, j, stmts, term, span, oob, like):
+        j['blocks'].append({'cleanup': False, 'stmts': stmts, 'term': term, 'span': span})
+        n = len(j['blocks']) - 1
+        oob[n] = oob.get(like, set())
+        return n
+
+    def _emit_apply(self, j, tmp, fop, args, ret_l, cont, chain, oob, span, like):
+        """blocks computing `ret_l = fop(args..)` and continuing at `cont`; returns the entry block.  A closure built
+        in this body is inlined, a fn item becomes a direct call, an enum constructor the aggregate it builds."""
+        co = single_origin(trace_operand(tmp, fop, through_calls=set())) if fop['k'] != 'const' else None
+        if co is not None and not co.proj and co.kind == 'agg' and co.data[2].get('agg') == 'closure':
+            g = self.prog.by_id.get(co.data[2]['closure'])
+            if g is not None and g.id not in chain and g.n <= self.max_blocks:
+                clo_pl = tmp.blocks[co.data[0]]['stmts'][co.data[1]]['pl']
+                offL, offB, rets = self._copy_in(j, g, chain, oob, ret_to=ret_l)
+                st = []
+                env_ty = g.locals[1]['ty'] if g.arg_count >= 1 else ''
+                if g.arg_count >= 1:
+                    if env_ty.startswith('&'):
+                        st.append(_assign(_pl(offL + 1, ty=env_ty), {'k': 'ref', 'mut': env_ty.startswith('&mut'), 'pl': clo_pl}, span))
+                    else:
+                        st.append(_assign(_pl(offL + 1, ty=env_ty), _use({'k': 'copy', 'pl': clo_pl}), span))
+                for k, a in enumerate(args):
+                    if k + 2 <= g.arg_count:
+                        st.append(_assign(_pl(offL + 2 + k, ty=g.locals[2 + k]['ty']), _use(a), span))
+                pre = self._new_block(j, st, {'k': 'goto', 'target': offB}, span, oob, like)
+                for r in rets:
+                    j['blocks'][r]['term'] = {'k': 'goto', 'target': cont}
+                return pre
+        fn = fop.get('fn') if fop['k'] == 'const' else None
+        if fn is not None and '{constructor#' in (fn.get('uid') or ''):
+            path = fn['def'].rsplit('::', 1)
+            a = self.prog.f.adt_by_name.get(path[0])
+            names = [v['name'] for v in a['variants']] if a else []
+            if a and path[1] in names:
+                rv = {'k': 'agg', 'agg': 'adt', 'adt': path[0], 'variant': path[1], 'vi': names.index(path[1]), 'is_enum': len(names) > 1, 'ops': list(args)}
+                return self._new_block(j, [_assign(_pl(ret_l), rv, span)], {'k': 'goto', 'target': cont}, span, oob, like)
+        term = {'k': 'call', 'func': fop, 'fty': fop.get('ty') or (fop.get('pl') or {}).get('ty', ''), 'args': list(args), 'arg_tys': ['' for _ in args],
+                'dest': _pl(ret_l), 'target': cont, 'unwind': 'Continue', 'fn_span': span}
+        return self._new_block(j, [], term, span, oob, like)
+
+    def _emit_try(self, j, res_l, dest, cont_payload_l, cont, tgt, span, oob, like):
+        """the canonical `?` on the Result in local res_l: Continue payload -> cont_payload_l, then `cont`;
+        Break -> `dest = from_residual(residual)` and leave to `tgt`.  Returns the entry block."""
+        def fnc(defp, uid, trait):
+            return {'k': 'const', 'ty': 'fn', 's': defp, 'fn': {'def': defp, 'path': defp, 'crate': 'core', 'uid': uid, 'local': False, 'args': [], 'trait': trait,
+                    'resolved': {'kind': 'item', 'def': defp, 'uid': uid, 'local': False, 'crate': 'core', 'args': []}}}
+        BR, DD, RS = self._new_local(j, 'std::ops::ControlFlow<?>'), self._new_local(j, 'isize'), self._new_local(j)
+        fail_t = dict(tgt)
+        fail = self._new_block(j, [_assign(_pl(RS), _use(_mv({'l': BR, 'p': [{'dc': 'Break', 'vi': 1}, {'f': 0, 'ty': ''}], 'ty': ''})), span)],
+                               {'k': 'call', 'func': fnc(FROM_RESIDUAL, 'core::ops::try_trait::FromResidual::from_residual', 'std::ops::FromResidual'), 'fty': '', 'args': [_mv(_pl(RS))], 'arg_tys': [''],
+                                'dest': dest, 'target': fail_t.get('target'), 'unwind': 'Continue', 'fn_span': span}, span, oob, like)
+        if fail_t['k'] != 'goto':
+            j['blocks'][fail]['term']['target'] = None
+        okb = self._new_block(j, [_assign(_pl(cont_payload_l), _use(_mv({'l': BR, 'p': [{'dc': 'Continue', 'vi': 0}, {'f': 0, 'ty': ''}], 'ty': ''})), span)],
+                              {'k': 'goto', 'target': cont}, span, oob, like)
+        sw = self._new_block(j, [_assign(_pl(DD), {'k': 'discr', 'pl': _pl(BR)}, span)],
+                             {'k': 'switch', 'discr': _mv(_pl(DD)), 'dty': 'isize', 'targets': [[0, okb], [1, fail]], 'otherwise': fail}, span, oob, like)
+        return self._new_block(j, [], {'k': 'call', 'func': fnc(TRY_BRANCH, 'core::ops::try_trait::Try::branch', 'std::ops::Try'), 'fty': '', 'args': [_mv(_pl(res_l))],
+                                       'arg_tys': ['std::result::Result<?, ?>'], 'dest': _pl(BR), 'target': sw, 'unwind': 'Continue', 'fn_span': span}, span, oob, like)
+
+    NEXT_OF = [('std::vec::IntoIter<', "<std::vec::IntoIter<T, A> as std::iter::Iterator>::next", 'alloc'),
+               ('std::slice::Iter<', "<std::slice::Iter<'a, T> as std::iter::Iterator>::next", 'core'),
+               ('std::slice::IterMut<', "<std::slice::IterMut<'a, T> as std::iter::Iterator>::next", 'core'),
+               ('std::array::IntoIter<', "<std::array::IntoIter<T, N> as std::iter::Iterator>::next", 'core')]
+    CONSUMERS = {'std::iter::Iterator::collect': 'collect', 'std::iter::Iterator::try_fold': 'try_fold', 'std::iter::Iterator::try_for_each': 'try_for_each',
+                 'std::iter::Iterator::fold': 'fold', 'std::iter::Iterator::for_each': 'for_each', 'std::iter::Iterator::any': 'any',
+                 'std::iter::Iterator::all': 'all', 'std::iter::Iterator::find': 'find', 'std::iter::Iterator::last': 'last'}
+
+    def _desugar_pipeline(self, j, tmp, b, c, chain, oob):
+        """`src.map(f).collect::<Result<..>>()`, `src.try_fold(init, f)`, `src.any(f)` … over a plain forward
+        iterator: the loop the adaptor runs, written out (draw an item, apply the closures, test, continue / leave),
+        so that order, laziness and early exits are visible to the path rules.  The std semantics encoded here:
+        collect into Result / try_fold / try_for_each stop at the first Err; fold / for_each / last / collect into a
+        plain collection visit every item; any / all / find stop at the first deciding item."""
+        kind = self.CONSUMERS.get(c.callee or '')
+        if kind is None or not c.args:
+            return False
+        blk = j['blocks'][b]
+        t = blk['term']
+        span = blk['span']
+        o = single_origin(trace_operand(tmp, t['args'][0], through_calls=set()))
+        kmap = None
+        src_op, src_ty = t['args'][0], (t['arg_tys'][0] if t['arg_tys'] else '')
+        if o is not None and o.kind == 'callres' and not o.proj and o.data.callee == 'std::iter::Iterator::map' and len(o.data.args) == 2:
+            kmap = o.data.args[1]
+            src_op, src_ty = o.data.args[0], (o.data.term['arg_tys'][0] if o.data.term['arg_tys'] else '')
+        bare = src_ty[5:] if src_ty.startswith('&mut ') else src_ty
+        nx = [(rd, cr) for pfx, rd, cr in self.NEXT_OF if bare.startswith(pfx)]
+        if not nx:
+            return False
+        dest_ty = t['dest'].get('ty', '')
+        if kind == 'collect':
+            is_res = dest_ty.startswith('std::result::Result<')
+            if dest_ty.startswith('std::option::Option<'):
+                return False
+            if is_res and kmap is None:
+                return False
+        step = t['args'][-1] if kind in ('try_fold', 'try_for_each', 'fold', 'for_each', 'any', 'all', 'find') else None
+        if kind in ('try_fold', 'try_for_each'):
+            so = single_origin(trace_operand(tmp, step, through_calls=set()))
+            g = self.prog.by_id.get(so.data[2]['closure']) if so is not None and so.kind == 'agg' and so.data[2].get('agg') == 'closure' else None
+            if g is None or not g.locals[0]['ty'].startswith('std::result::Result<'):
+                return False
+        L = lambda ty='': self._new_local(j, ty)
+        IT, REF, NX, D, ITEM, X = L(src_ty), L('&mut ' + bare), L('std::option::Option<?>'), L('isize'), L(), L()
+        ACC, V, R, D2, BL = L(), L(dest_ty), L(), L('isize'), L('bool')
+        tgt = {'k': 'goto', 'target': t['target']} if t['target'] is not None else {'k': 'unreachable'}
+        dest = t['dest']
+        nb = lambda st, term: self._new_block(j, st, term, span, oob, b)
+        # placeholders: HEAD is needed by the step blocks, which are needed by SW
+        head = nb([], {'k': 'unreachable'})
+        # exits
+        if kind == 'collect':
+            done = nb([_assign(dest, _agg(RESULT, 'Ok', [_mv(_pl(V))]) if is_res else _use(_mv(_pl(V))), span)], dict(tgt))
+        elif kind == 'try_fold':
+            done = nb([_assign(dest, _agg(RESULT, 'Ok', [_mv(_pl(ACC))]), span)], dict(tgt))
+        elif kind == 'try_for_each':
+            done = nb([_assign(_pl(ACC), {'k': 'agg', 'agg': 'tuple', 'ops': []}, span), _assign(dest, _agg(RESULT, 'Ok', [_mv(_pl(ACC))]), span)], dict(tgt))
+        elif kind in ('fold', 'last'):
+            done = nb([_assign(dest, _use(_mv(_pl(ACC))), span)], dict(tgt))
+        elif kind == 'for_each':
+            done = nb([_assign(dest, {'k': 'agg', 'agg': 'tuple', 'ops': []}, span)], dict(tgt))
+        elif kind in ('any', 'all'):
+            done = nb([_assign(dest, _use({'k': 'const', 'ty': 'bool', 's': 'const %s' % ('false' if kind == 'any' else 'true'), 'int': 0 if kind == 'any' else 1}), span)], dict(tgt))
+        else:   # find
+            done = nb([_assign(dest, _agg(OPTION, 'None', []), span)], dict(tgt))
+        # consumer step, entered with the (mapped) item in X
+        if kind == 'collect':
+            push_fn = {'k': 'const', 'ty': 'fn', 's': 'std::vec::Vec::<T, A>::push',
+                       'fn': {'def': 'std::vec::Vec::<T, A>::push', 'path': 'std::vec::Vec::<T, A>::push', 'crate': 'alloc', 'uid': 'alloc::vec::{impl#1}::push', 'local': False, 'args': [],
+                              'resolved': {'kind': 'item', 'def': 'std::vec::Vec::<T, A>::push', 'uid': 'alloc::vec::{impl#1}::push', 'local': False, 'crate': 'alloc', 'args': []}}}
+            VR = L('&mut ' + dest_ty)
+            if is_res:
+                PAY = L()
+                push = nb([_assign(_pl(VR), {'k': 'ref', 'mut': True, 'pl': _pl(V)}, span)],
+                          {'k': 'call', 'func': push_fn, 'fty': '', 'args': [_mv(_pl(VR)), _mv(_pl(PAY))], 'arg_tys': ['', ''],
+                           'dest': _pl(L('()')), 'target': head, 'unwind': 'Continue', 'fn_span': span})
+                cstep = self._emit_try(j, X, dest, PAY, push, tgt, span, oob, b)
+            else:
+                cstep = nb([_assign(_pl(VR), {'k': 'ref', 'mut': True, 'pl': _pl(V)}, span)],
+                           {'k': 'call', 'func': push_fn, 'fty': '', 'args': [_mv(_pl(VR)), _mv(_pl(X))], 'arg_tys': ['', ''],
+                            'dest': _pl(L('()')), 'target': head, 'unwind': 'Continue', 'fn_span': span})
+        elif kind in ('try_fold', 'try_for_each'):
+            test = self._emit_try(j, R, dest, ACC, head, tgt, span, oob, b)
+            args = [_mv(_pl(ACC)), _mv(_pl(X))] if kind == 'try_fold' else [_mv(_pl(X))]
+            cstep = self._emit_apply(j, tmp, step, args, R, test, chain, oob, span, b)
+        elif kind == 'fold':
+            back = nb([_assign(_pl(ACC), _use(_mv(_pl(R))), span)], {'k': 'goto', 'target': head})
+            cstep = self._emit_apply(j, tmp, step, [_mv(_pl(ACC)), _mv(_pl(X))], R, back, chain, oob, span, b)
+        elif kind == 'for_each':
+            cstep = self._emit_apply(j, tmp, step, [_mv(_pl(X))], R, head, chain, oob, span, b)
+        elif kind in ('any', 'all'):
+            hit = nb([_assign(dest, _use({'k': 'const', 'ty': 'bool', 's': 'const %s' % ('true' if kind == 'any' else 'false'), 'int': 1 if kind == 'any' else 0}), span)], dict(tgt))
+            test = nb([], {'k': 'switch', 'discr': _mv(_pl(BL)), 'dty': 'bool',
+                           'targets': [[0, head if kind == 'any' else hit]], 'otherwise': hit if kind == 'any' else head})
+            cstep = self._emit_apply(j, tmp, step, [_mv(_pl(X))], BL, test, chain, oob, span, b)
+        elif kind == 'find':
+            XR = L()
+            found = nb([_assign(dest, _agg(OPTION, 'Some', [_mv(_pl(X))]), span)], dict(tgt))
+            test = nb([], {'k': 'switch', 'discr': _mv(_pl(BL)), 'dty': 'bool', 'targets': [[0, head]], 'otherwise': found})
+            app = self._emit_apply(j, tmp, step, [_mv(_pl(XR))], BL, test, chain, oob, span, b)
+            cstep = nb([_assign(_pl(XR), {'k': 'ref', 'mut': False, 'pl': _pl(X)}, span)], {'k': 'goto', 'target': app})
+        else:   # last
+            cstep = nb([_assign(_pl(ACC), _agg(OPTION, 'Some', [_mv(_pl(X))]), span)], {'k': 'goto', 'target': head})
+        # map stage: X = kmap(ITEM)
+        if kmap is not None:
+            body_entry = self._emit_apply(j, tmp, kmap, [_mv(_pl(ITEM))], X, cstep, chain, oob, span, b)
+        else:
+            body_entry = nb([_assign(_pl(X), _use(_mv(_pl(ITEM))), span)], {'k': 'goto', 'target': cstep})
+        take = nb([_assign(_pl(ITEM), _use(_mv({'l': NX, 'p': [{'dc': 'Some', 'vi': 1}, {'f': 0, 'ty': ''}], 'ty': ''})), span)], {'k': 'goto', 'target': body_entry})
+        sw = nb([_assign(_pl(D), {'k': 'discr', 'pl': _pl(NX)}, span)],
+                {'k': 'switch', 'discr': _mv(_pl(D)), 'dty': 'isize', 'targets': [[0, done], [1, take]], 'otherwise': done})
+        rdef, crate = nx[0]
+        next_fn = {'k': 'const', 'ty': 'fn', 's': rdef,
+                   'fn': {'def': 'std::iter::Iterator::next', 'path': rdef, 'crate': 'core', 'uid': 'core::iter::traits::iterator::Iterator::next', 'local': False, 'args': [], 'trait': 'std::iter::Iterator',
+                          'resolved': {'kind': 'item', 'def': rdef, 'uid': 'synthetic::next', 'local': False, 'crate': crate, 'args': []}}}
+        by_ref = src_ty.startswith('&mut ')
+        j['blocks'][head]['stmts'] = [_assign(_pl(REF), _use({'k': 'copy', 'pl': _pl(IT)}) if by_ref else {'k': 'ref', 'mut': True, 'pl': _pl(IT)}, span)]
+        j['blocks'][head]['term'] = {'k': 'call', 'func': next_fn, 'fty': '', 'args': [_mv(_pl(REF))], 'arg_tys': ['&mut ' + bare],
+                                     'dest': _pl(NX), 'target': sw, 'unwind': 'Continue', 'fn_span': span}
+        # entry: bind the iterator, the accumulator / the collection, then loop
+        blk['stmts'].append(_assign(_pl(IT), _use(src_op), span))
+        if kind in ('try_fold', 'fold'):
+            blk['stmts'].append(_assign(_pl(ACC), _use(t['args'][1]), span))
+        if kind == 'last':
+            blk['stmts'].append(_assign(_pl(ACC), _agg(OPTION, 'None', []), span))
+        if kind == 'collect':
+            new_fn = {'k': 'const', 'ty': 'fn', 's': 'std::vec::Vec::<T>::new',
+                      'fn': {'def': 'std::vec::Vec::<T>::new', 'path': 'std::vec::Vec::<T>::new', 'crate': 'alloc', 'uid': 'alloc::vec::{impl#0}::new', 'local': False, 'args': [],
+                             'resolved': {'kind': 'item', 'def': 'std::vec::Vec::<T>::new', 'uid': 'alloc::vec::{impl#0}::new', 'local': False, 'crate': 'alloc', 'args': []}}}
+            blk['term'] = {'k': 'call', 'func': new_fn, 'fty': '', 'args': [], 'arg_tys': [], 'dest': _pl(V), 'target': head, 'unwind': 'Continue', 'fn_span': span}
+        else:
+            blk['term'] = {'k': 'goto', 'target': head}
+        j['inlined'].append('iterator:' + kind + ('+map' if kmap is not None else ''))
         return True
 
     def _skip_rv(self, t, on_skip, recv, adt):
